@@ -375,6 +375,8 @@ def _gen_model_op(r, root, path, m, sp, malformed):
             val = gen_value_for(r, ty, indent=indent)
             if val is None:
                 return None
+        if cur is not None and r.random() < 0.1:
+            val = {'t': 'copy', 'path': path + [name]}     # re-seat: the child is replaced by an equal, freshly built one
         if malformed and r.random() < malformed:
             val = _attached_ref(r, root, tys) or val
         return {'k': 'setattr', 'kind': 'opt-set', 'path': path, 'attr': name, 'val': val, 'parent': path, 'field': f}
@@ -390,6 +392,8 @@ def _gen_model_op(r, root, path, m, sp, malformed):
         if isinstance(m, (models.NumberParenExpr, models.NumberUnaryExpr, models.NumberExpr)) and sp:
             pass
         val = gen_value_for(r, ty)
+        if r.random() < 0.15 and not (f == '_indent' and sp):
+            val = {'t': 'copy', 'path': path + [name]}     # re-seat: the child is replaced by an equal, freshly built one
         if val is None:
             return None
         if malformed and r.random() < malformed:
